@@ -34,6 +34,8 @@ def run_impl(cfgd, mat, bare):
         if bare:
             G = pgm.make_compiler(cfgd, fn)
             try:
+                if bare == 2:          # write() entered with the shutter open (a previous path left it open)
+                    G.shutter('ON')
                 G.write(mat)
             except ValueError:
                 raised = 1
@@ -61,8 +63,8 @@ def case_literal(cfgd, mat, bare, text, raised, dwell):
     tm = pgm.t_matrix_of(cfgd)
     it = lexer.Interner()
     toks = lexer.lex(text, it) if text is not None else []
-    return ('{| k_cfg := %s; k_pts := %s; k_bare := %s; k_toks := %s; k_written := %s; k_raised := %s; k_dwell := %s |}' % (
-        pgm.cfg_literal(cfgd, tm), pgm.pts_literal(mat), cb(bare), lexer.toks_literal(toks), cb(text is not None),
+    return ('{| k_cfg := %s; k_pts := %s; k_bare := %s; k_open0 := %s; k_toks := %s; k_written := %s; k_raised := %s; k_dwell := %s |}' % (
+        pgm.cfg_literal(cfgd, tm), pgm.pts_literal(mat), cb(bare), cb(bare == 2), lexer.toks_literal(toks), cb(text is not None),
         cn(raised), cq(frac(dwell))))
 
 
@@ -182,6 +184,8 @@ def run(rep: common.Report, tier: str, seed: int):
     for stream, cfgd, mat, bare, descr in itertools.chain(pre, gen_cases(rng, tier)):
         if bare and (cfgd.get('laser', 'PHAROS') is None or str(cfgd.get('laser', 'PHAROS')).lower() not in ('ant', 'carbide', 'pharos', 'uwe')):
             cfgd = dict(cfgd, laser='PHAROS')    # an invalid laser is only meaningful for the context-manager session
+        if bare is True and stream != 'corpus' and rng.random() < 0.3:
+            bare = 2
         text, raised, dwell = run_impl(cfgd, mat, bare)
         cases.append({'stream': stream, 'cfg': cfgd, 'matrix': np.asarray(mat).tolist(), 'dtype': str(np.asarray(mat).dtype),
                       'bare': bare, 'built_by': descr})
@@ -194,6 +198,7 @@ def run(rep: common.Report, tier: str, seed: int):
         hist['digits'][dg] = hist['digits'].get(dg, 0) + 1
         hist['raised'] += 1 if raised else 0
         hist['bare'] += 1 if bare else 0
+        hist['open_at_entry'] = hist.get('open_at_entry', 0) + (1 if bare == 2 else 0)
     fails = common.run_model('C01', 'Harness.C01', 'C01.case', 'C01.failing', lits, shard=60, extra_imports=IMPORTS)
     names = ['written', 'exception', 'tokens', 'dwell', 'replay', 'accuracy']
     for idx, code in fails:
